@@ -3,6 +3,7 @@ package main
 // Facts for C17: constants and call structure the connection-cap model assumes.
 
 import (
+	"sort"
 	"go/ast"
 	"strings"
 )
@@ -80,6 +81,72 @@ func init() {
 		}
 		w.Line("/-- limitListenerConn.Close releases through sync.Once. -/")
 		w.Line("def closeReleasesOnce : Bool := %s", Bool(strings.Contains(r.Src(cl.Body), "l.releaseOnce.Do(l.release)") && r.CountCalls(cl.Body, "l.release") == 0))
+
+		// Where a connection's unit can be released: the method sets of the two types of limitlistener.go and every
+		// function of the file that mentions the `release` / `releaseOnce` fields. A new method on the wrapper
+		// (e.g. a Read that releases on EOF) or a new user of these fields changes the lists.
+		llf, err := r.File("pkg/util/limitlistener/limitlistener.go")
+		if err != nil {
+			return err
+		}
+		var connMethods, listenerMethods, otherFuncs, releaseUsers []string
+		for _, d := range llf.Decls {
+			fd, ok := d.(*ast.FuncDecl)
+			if !ok {
+				continue
+			}
+			q := fd.Name.Name
+			switch {
+			case fd.Recv == nil:
+				otherFuncs = append(otherFuncs, q)
+			case len(fd.Recv.List) == 1 && recvName(fd.Recv.List[0].Type) == "limitListenerConn":
+				connMethods = append(connMethods, q)
+				q = "limitListenerConn." + q
+			case len(fd.Recv.List) == 1 && recvName(fd.Recv.List[0].Type) == "LimitListener":
+				listenerMethods = append(listenerMethods, q)
+				q = "LimitListener." + q
+			default:
+				otherFuncs = append(otherFuncs, "?."+q)
+			}
+			uses := false
+			if fd.Body != nil {
+				ast.Inspect(fd.Body, func(n ast.Node) bool {
+					switch x := n.(type) {
+					case *ast.SelectorExpr:
+						if x.Sel.Name == "release" || x.Sel.Name == "releaseOnce" {
+							uses = true
+						}
+					case *ast.KeyValueExpr:
+						if id, ok := x.Key.(*ast.Ident); ok && (id.Name == "release" || id.Name == "releaseOnce") {
+							uses = true
+						}
+					}
+					return true
+				})
+			}
+			if uses {
+				releaseUsers = append(releaseUsers, q)
+			}
+		}
+		sort.Strings(connMethods)
+		sort.Strings(listenerMethods)
+		sort.Strings(otherFuncs)
+		sort.Strings(releaseUsers)
+		strList := func(xs []string) string {
+			q := make([]string, len(xs))
+			for i, x := range xs {
+				q[i] = Str(x)
+			}
+			return "[" + strings.Join(q, ", ") + "]"
+		}
+		w.Line("/-- methods declared on limitListenerConn (everything else is the embedded net.Conn) -/")
+		w.Line("def connMethods : List String := %s", strList(connMethods))
+		w.Line("/-- methods declared on LimitListener -/")
+		w.Line("def listenerMethods : List String := %s", strList(listenerMethods))
+		w.Line("/-- plain functions (and methods of other types) of limitlistener.go -/")
+		w.Line("def listenerOtherFuncs : List String := %s", strList(otherFuncs))
+		w.Line("/-- functions of limitlistener.go that mention the `release` / `releaseOnce` fields or the listener's `release` method -/")
+		w.Line("def releaseUsers : List String := %s", strList(releaseUsers))
 
 		smc, err := r.Func("pkg/util/limitlistener/limitlistener.go", "LimitListener", "SetMaxConnection")
 		if err != nil {
